@@ -86,6 +86,10 @@ def run(tier):
     # a model whose subgraph carries no name (the field is optional): names derived from it must not depend on the entry point
     histories.append([st("mixed_cpu!anon", 1, entry="convert_bytes"), st("mixed_cpu!anon", 1, entry="convert"), st("mixed_cpu!anon", 1),
                       st("single:conv!anon", 2, entry="convert_bytes"), st("single:conv!anon", 2)])
+    # models that carry several metadata entries of their own (the reader keeps them, the writer adds two): their order in
+    # the output must not depend on hashing, their number not on earlier compilations
+    histories.append([st("single:conv!meta", 2), st("mixed_cpu!meta", 1, entry="convert_bytes"), st("single:conv!meta", 2, entry="convert"),
+                      st("mixed_cpu!meta", 1)])
     histories.append([st("multi_custom", 1), st("multi_custom", 2), st("multi_custom", 1, entry="convert_bytes")])
     histories.append([st("lut_heavy", 1), st("lut_heavy", 1)])
     histories.append([st("lut_heavy", 1), st("lut_heavy", 2), st("lut_heavy", 1), st("lut_heavy", 1, entry="convert"), st("lut_heavy", 1, entry="convert_bytes")])
